@@ -11,15 +11,25 @@ def _is_lib(frame):
     return "shapepy" in fn or "pynurbs" in fn
 
 
+def _wants_lines(frame):
+    """line events are also fault points inside jordancurve.py: its in-place operations (split, the segments setter, invert, the signed-length cache)
+    have windows between two statements that contain no Python-level call (`list.pop` … `list.insert`), where an asynchronous interrupt can land"""
+    return frame.f_code.co_filename.endswith("jordancurve.py")
+
+
+def _is_event(frame, event):
+    return (event == "call" and _is_lib(frame)) or (event == "line" and _wants_lines(frame))
+
+
 def profile_calls(fn):
     """run fn once and return the list of callee names of every library call event, in order"""
     sites = []
 
     def tracer(frame, event, arg):
-        if event == "call" and _is_lib(frame):
+        if _is_event(frame, event):
             back = frame.f_back
-            sites.append((back.f_code.co_name if back else "?", frame.f_code.co_name))
-        return None
+            sites.append((back.f_code.co_name if back else "?", frame.f_code.co_name) if event == "call" else ("line", frame.f_code.co_name, frame.f_lineno))
+        return tracer if _wants_lines(frame) else None
     sys.settrace(tracer)
     try:
         fn()
@@ -33,12 +43,12 @@ def run_with_fault(fn, k, exc_type=Boom):
     state = {"n": 0}
 
     def tracer(frame, event, arg):
-        if event == "call" and _is_lib(frame):
+        if _is_event(frame, event):
             if state["n"] == k:
                 state["n"] += 1
                 raise exc_type()
             state["n"] += 1
-        return None
+        return tracer if _wants_lines(frame) else None
     sys.settrace(tracer)
     try:
         try:
@@ -105,9 +115,9 @@ def dirty_points(fn, objs, limit=40, rng=None):
     last = {"light": first[0], "full": first[1]}
 
     def tracer(frame, event, arg):
-        if event == "call" and _is_lib(frame):
+        if _is_event(frame, event):
             back = frame.f_back
-            sites.append((back.f_code.co_name if back else "?", frame.f_code.co_name))
+            sites.append((back.f_code.co_name if back else "?", frame.f_code.co_name) if event == "call" else ("line", frame.f_code.co_name, frame.f_lineno))
             light = fingerprint_light(objs)
             # the full state (all control-point values) is re-read when the light state moved and at every 64th event
             if light != last["light"] or len(sites) % 64 == 0:
@@ -116,7 +126,7 @@ def dirty_points(fn, objs, limit=40, rng=None):
             if fp != first:
                 sid = states.setdefault(fp, len(states))
                 seen.append((len(sites) - 1, sid))
-        return None
+        return tracer if _wants_lines(frame) else None
     sys.settrace(tracer)
     try:
         fn()
